@@ -14,5 +14,5 @@ for f in plain sched; do
   $B/mkoverlay $f $B/$f || exit 1
   go build -overlay $B/$f/overlay.json -o $B/vcheck-$f ./cmd/vcheck || exit 1
 done
-$B/mkoverlay plain $B/plain && go build -race -overlay $B/plain/overlay.json -o $B/vcheck-race ./cmd/vcheck || exit 1
+mkdir -p $B/raceov && $B/mkoverlay plain $B/raceov && go build -race -overlay $B/raceov/overlay.json -o $B/vcheck-race ./cmd/vcheck || exit 1
 echo setup ok
